@@ -232,12 +232,17 @@ class Session:
                 import circuitpython_nrf24l01.fake_ble as fb
                 fb.urandom = lambda n: bytes(range(0xA1, 0xA1 + n))
                 klass = fb.FakeBLE
+            elif cls == "lite":
+                from circuitpython_nrf24l01.rf24_lite import RF24 as klass
             else:
                 raise Infra("unknown class " + cls)
             obj = klass.__new__(klass)
             self.objs[name] = obj
             try:
-                klass.__init__(obj, SimSpiDev(w, rid), SimPin(), SimPin(w, rid, ce=True))
+                if cls == "lite":
+                    klass.__init__(obj, simradio.BusioSpi(w, rid), simradio.CsPin(), SimPin(w, rid, ce=True))
+                else:
+                    klass.__init__(obj, SimSpiDev(w, rid), SimPin(), SimPin(w, rid, ce=True))
                 res = "ok"
             except SimTimeout:
                 res = "exc=DIVERGE"
@@ -267,6 +272,9 @@ class Session:
 
     def show_obj(self, obj):
         try:
+            if type(obj).__module__.endswith("rf24_lite"):
+                p0r = "none" if obj._pipe0_read_addr is None else hx(obj._pipe0_read_addr)
+                return f"st={obj._status} p0r={p0r}"
             if type(obj).__name__ == "FakeBLE":
                 return show_rf24(obj) + f" cf={obj._curr_freq}"
             return show_rf24(obj)
